@@ -114,6 +114,9 @@ func runFamilies(r *core.Report, fams []*FamilySpec, tier string) []*FamilyRun {
 		out = append(out, fr)
 	}
 	r.Set("bounds", map[string]any{"answer_depth_D": t.Opts.D, "event_fuel_F": t.Opts.F, "consumer_calls_H": t.Opts.H, "per_program_path_cap": t.Opts.Cap, "panic_injection": "one injected panic per execution, at every event of every explored path"})
+	if n := pipeline.ResultCacheHits.Load(); n > 0 {
+		r.Set("shards_reused_from_result_cache", map[string]any{"shards": n, "note": "exploration output of an identical worker binary (same /repo tree, harness and programs) and identical bounds, produced by an earlier check of this tree; VERIF_NO_RESULT_CACHE=1 re-runs everything"})
+	}
 	pipeline.Evict()
 	return out
 }
@@ -169,7 +172,7 @@ func C18(tier string) *core.Report {
 // C11 — the compiler accepts the supported subset and its output builds.
 func C11(tier string) *core.Report {
 	r := core.NewReport("C11", tier)
-	fams := append(CFFamilies(tier), importFamily(tier), etaFamily(tier), yfFamily(tier), negativeControlFamily(tier), bystanderFamily(tier))
+	fams := append(CFFamilies(tier), importFamily(tier), etaFamily(tier), yfFamily(tier), negativeControlFamily(tier), bystanderFamily(tier), itypeFamily(tier))
 	if tier == "thorough" {
 		fams = append(fams, VarFamilies(tier)...)
 		fams = append(fams, consFamily(tier), rangeFamily("RANGE", tier, false))
